@@ -39,6 +39,8 @@ def main() -> None:
         files = sorted({l[6:].split("/")[-1] for l in diff.splitlines() if l.startswith("+++ b/")})
         det = "; ".join(f"{k}: {'CAUGHT' if v['exit'] == 1 else ('inconclusive' if v['exit'] == 2 else 'MISSED')}"
                         for k, v in m.get("detected_by", {}).items())
+        if m.get("equivalent_on_repaired_tree"):
+            det = det.replace("MISSED", "unreachable on the repaired tree (see history)")
         kinds = []
         for k, v in m.get("detected_by", {}).items():
             w = v.get("first_witness") or ""
